@@ -326,6 +326,54 @@ def resolve_local(f: Func, e: ast.AST, depth: int = 4) -> list[ast.AST]:
     return [e]
 
 
+def reaching_values(f: Func, use: ast.Name,
+                    truthy_only: set | None = None) -> list[ast.AST] | None:
+    """Values of the definitions of local `use.id` that REACH this use
+    (flow-sensitive: a definition counts when the use is reachable from it
+    without passing another definition of the same name).  None when the
+    name is a parameter, has no local definition, or a definition has no
+    attributable value.  When ``truthy_only`` (a set) is given, the ids of
+    the values that reach the use only along paths on which the name has
+    been tested truthy are added to it."""
+    if use.id in f.params():
+        return None
+    defs = local_assigns(f, use.id)
+    if not defs or any(v is None or isinstance(v, ast.AugAssign)
+                       for _, v in defs):
+        return None
+    cfg = cfg_of(f)
+    uses = cfg.node_containing(use)
+    if not uses:
+        return None
+    dnodes = []
+    for st, v in defs:
+        ns = [n for n in cfg.nodes if n.stmt is st] or \
+            cfg.node_containing(v)
+        if not ns:
+            return None
+        dnodes.append((ns[0], v))
+    out = []
+    # edges after which the name is known to be truthy: a path that avoids
+    # all of them may still carry a falsy value
+    falsy = []
+    if truthy_only is not None:
+        for t in cfg.nodes:
+            if t.kind == 'test' and getattr(t.stmt, 'test', None) is not None:
+                at = guard_atoms(t.stmt.test)
+                if len(at) == 1 and at[0][0] == use.id:
+                    falsy.append((t, 't' if at[0][1] else 'f'))
+    for dn, v in dnodes:
+        others = [n for n, _ in dnodes if n is not dn]
+        r = cfg.reach([dn], avoid=others)
+        if any(u in r or u is dn for u in uses):
+            out.append(v)
+            if truthy_only is not None and falsy:
+                r2 = cfg.reach([dn], avoid=others, skip_edges=falsy)
+                if not any(u in r2 for u in uses):
+                    truthy_only.add(id(v))
+    return out or None
+
+
 def stmt_is_raise(s: ast.AST) -> bool:
     return isinstance(s, ast.Raise)
 
